@@ -47,6 +47,7 @@ def errStr : StructErr → String
   | .typeError => "TypeError"
   | .classValidation => "ClassValidationError"
   | .unicodeDecode => "UnicodeDecodeError"
+  | .osError => "OSError"
 
 def verdictJson : Verdict → Json
   | .fresh => Json.mkObj [("verdict", "fresh")]
@@ -72,7 +73,8 @@ def handleGate (payload : Json) : R Json := do
       other := ()
       version := (← asStr (← field wj "version")).toList
       plugins := (← asStr (← field wj "plugins")).toList }
-  let v := gateJ render D w f
+  let unreadable ← asStrList (fieldD wj "unreadable" (Json.arr #[]))
+  let v := gateJIO render D (fun p => unreadable.contains (String.ofList p)) w f
   let ws : Bool := match f with
     | some (.json v) => wellShaped v
     | _ => false
